@@ -14,6 +14,7 @@
 #include "evdns.c"
 #include "dnspkt_common.h"
 #include <stddef.h>
+#include <sys/mman.h>
 
 /* ------------------------------------------------------------------ */
 /* grammar                                                              */
@@ -258,7 +259,7 @@ struct nm { char text[320]; size_t len; uint32_t ttl; int has_nul; };
 struct refres {
 	int cls; uint16_t flags;
 	int n_main, zero_len_main; size_t addr_len; uint32_t min_ttl;
-	int n_ptr, n_cname, answers_complete, stop_err;
+	int n_ptr, n_cname, answers_complete, stop_err, reserved_label;
 	uint8_t addr[4096];
 	struct nm ptr[8];
 	struct nm cn[8];
@@ -276,7 +277,9 @@ static void ref_eval(const uint8_t *msg, size_t len, const struct qinfo *q, int 
 	{ static struct dw_reader r2; dw_reader_init(&r2, q->qname, q->qlen); size_t nx; dw_name_decode(&r2, 0, &nx, &want, 0); }
 	int match = 0;
 	for (unsigned i = 0; i < h.qd; i++) {
-		if (dw_read_question(&rd, &qq) != DW_OK) { o->cls = R_QMALFORMED; return; }
+		int qrc = dw_read_question(&rd, &qq);
+		if (qrc == DW_E_LABEL_TYPE) o->reserved_label = 1;
+		if (qrc != DW_OK) { o->cls = R_QMALFORMED; return; }
 		if (dw_name_eq(&qq.name, &want, 1)) match = 1;
 	}
 	if (!match) { o->cls = R_QMISMATCH; return; }
@@ -285,6 +288,9 @@ static void ref_eval(const uint8_t *msg, size_t len, const struct qinfo *q, int 
 	o->answers_complete = 1;
 	for (unsigned i = 0; i < h.an; i++) {
 		int rc = dw_read_rr(&rd, &rr);
+		if (rc == DW_E_LABEL_TYPE) o->reserved_label = 1;
+		/* name-driven reading: the rdlength of a CNAME/PTR record is not consulted at all */
+		if (rc == DW_E_RDATA && policy_b && (rr.type == DW_TYPE_CNAME || (rr.type == DW_TYPE_PTR && rr.class_ == DW_CLASS_IN && T == DW_TYPE_PTR))) rc = DW_OK;
 		if (rc != DW_OK) { o->answers_complete = 0; o->stop_err = rc; break; }
 		if (rr.class_ == DW_CLASS_IN && rr.type == T && T != DW_TYPE_PTR) {
 			if (rr.rdlen % unit) { o->answers_complete = 0; o->stop_err = DW_E_RDATA; break; }
@@ -294,6 +300,7 @@ static void ref_eval(const uint8_t *msg, size_t len, const struct qinfo *q, int 
 			if (rr.ttl < o->min_ttl) o->min_ttl = rr.ttl;
 		} else if ((rr.type == DW_TYPE_CNAME) || (rr.type == DW_TYPE_PTR && rr.class_ == DW_CLASS_IN && T == DW_TYPE_PTR)) {
 			size_t ne; rc = dw_read_rdata_name(&rd, rr.rdata, &tgt, &ne);
+			if (rc == DW_E_LABEL_TYPE) o->reserved_label = 1;
 			if (rc != DW_OK) { o->answers_complete = 0; o->stop_err = rc; break; }
 			if (!policy_b && ne != rr.end) { o->answers_complete = 0; o->stop_err = DW_E_RDATA; break; }
 			if (policy_b) rd.off = ne;
@@ -452,7 +459,7 @@ static void cx_base_free(struct cx *c)
 	event_base_loop(c->eb, EVLOOP_NONBLOCK);
 	evdns_base_free(c->dns, 0);
 	c->dns = NULL;
-	if (event_base_get_num_events(c->eb, EVENT_BASE_COUNT_ADDED | EVENT_BASE_COUNT_ACTIVE) || c->lsock >= 0) event_base_loop(c->eb, EVLOOP_NONBLOCK);
+	event_base_loop(c->eb, EVLOOP_NONBLOCK);         /* bufferevent finalizers of a TCP connection run here */
 	if (event_base_get_num_events(c->eb, EVENT_BASE_COUNT_ADDED | EVENT_BASE_COUNT_ACTIVE)) event_base_loop(c->eb, EVLOOP_NONBLOCK);
 	int left = event_base_get_num_events(c->eb, EVENT_BASE_COUNT_ADDED | EVENT_BASE_COUNT_ACTIVE);
 	if (left) mc_fail("C33/events-left-after-free", "%d event(s) still added/active in the event_base after evdns_base_free", left);
@@ -577,13 +584,14 @@ static void judge(const struct cx *c, int cfg, const struct spec *s, const uint8
 		return;
 	}
 	MC_COUNT("outcome_data");
+	if (A.reserved_label || B.reserved_label) { MC_COUNT("ref_reserved_label_type_unjudged"); return; }
 	if (A.cls != R_USABLE) { MC_COUNT("oracle_unmatched_checked"); mc_fail("C33/unmatched-reply-used", "%s: a %s reply delivered data (count %d)", g_ctx, cls_name[A.cls], c0->count); return; }
 	const char *ka = match_data(&A, qt, log, cname_cb), *kb = ka ? match_data(&B, qt, log, cname_cb) : NULL;
 	MC_COUNT("oracle_data_compared");
 	if (log->n >= 2) MC_COUNT("oracle_cname_compared");
 	if (ka && kb) {
 		char key[96], hx[200];
-		snprintf(key, sizeof key, "C33/%s", ka);
+		snprintf(key, sizeof key, "C33/%s", strstr(kb, "truncated-at-nul") ? kb : ka);
 		mc_fail(key, "%s: delivered count=%d ttl=%d data=%s name='%s' cname='%s' ttl2=%d; reference: %zu address bytes, %d ptr, %d cname, min ttl %u",
 		    g_ctx, c0->count, c0->ttl, dp_hex(c0->data, c0->dlen > 40 ? 40 : c0->dlen, hx, sizeof hx), c0->name, log->n > 1 ? log->r[1].name : "", log->n > 1 ? log->r[1].ttl : -1,
 		    A.addr_len, A.n_ptr, A.n_cname, A.min_ttl);
@@ -596,12 +604,36 @@ static void judge(const struct cx *c, int cfg, const struct spec *s, const uint8
 /* one execution: fresh resolver, pending request, deliver msg[0..len), judge, hygiene */
 static struct cx g_cx;
 
-static void report_leak(long leaked, int cfg, const struct dp_buf *full_msg, size_t len, const struct qinfo *q, int delivered, const char *when)
+/* Inputs already executed (by any worker): an execution is a function of (transport, cfg, qtype, cuts, bytes)
+ * alone because the resolver is pristine, so a byte-identical prefix of another message is not run again. */
+static uint64_t *g_done; static size_t g_done_cap;
+static int done_insert(uint64_t h)
 {
-	static struct refres RA; ref_eval(full_msg->b, len, q, 1, &RA);
-	const char *k = "C33/leak/other";
-	if ((cfg & 1) && RA.cls == R_USABLE && RA.n_cname >= 2) k = "C33/leak/cname-overwritten-by-second-cname";
-	else if ((cfg & 1) && RA.cls == R_USABLE && RA.n_cname >= 1 && !delivered) k = "C33/leak/cname-on-error-path";
+	if (!g_done || mc_replaying()) return 1;
+	h |= 1;
+	size_t i = (size_t)((h * 0x9e3779b97f4a7c15ULL) >> 24) & (g_done_cap - 1);
+	for (int n = 0; n < 256; n++, i = (i + 1) & (g_done_cap - 1)) {
+		uint64_t v = g_done[i];
+		if (v == h) return 0;
+		if (v == 0) { if (__sync_bool_compare_and_swap(&g_done[i], 0, h)) return 1; if (g_done[i] == h) return 0; }
+	}
+	return 1;
+}
+
+static long g_item_leaks, g_tr_env;
+static int spec_has_cname(const struct spec *s)
+{
+	static const uint8_t set[] = { 5, 6, 7, 8, 24, 25, 26, 28, 29, 30, 33 };
+	if (s->kind == K_MUTANT) return 1;
+	for (size_t i = 0; i < sizeof set; i++) if (s->a == set[i]) return s->qt != QT_PTR || (s->a != 28 && s->a != 29);
+	return 0;
+}
+static void report_leak(long leaked, int cfg, const struct spec *s, const char *when)
+{
+	/* DNS_CNAME_CALLBACK + a CNAME record in the reply: the strdup'ed reply.cname (one defect: it has no owner on the
+	 * overwrite / error / rcode paths); anything else is a different leak */
+	const char *k = ((cfg & 1) && spec_has_cname(s)) ? "C33/leak/reply-cname" : "C33/leak/other";
+	g_item_leaks += leaked;
 	mc_fail(k, "%s: %ld allocation(s) still live %s", g_ctx, leaked, when);
 }
 
@@ -609,6 +641,11 @@ static void report_leak(long leaked, int cfg, const struct dp_buf *full_msg, siz
 static void run_exec(const struct spec *s, int cfg, int mode, const struct dp_buf *full_msg, size_t len, size_t cut1, size_t cut2, const struct qinfo *predicted)
 {
 	struct cx *c = &g_cx;
+	{
+		uint64_t h = mc_hash_u64(mc_hash_u64(11, (uint64_t)mode * 64 + (uint64_t)cfg * 8 + s->qt), (uint64_t)cut1 * 70001 + cut2);
+		h = mc_hash(h, full_msg->b, len); h = mc_hash_u64(h, len * 2 + (len == full_msg->n && s->canon));
+		if (!done_insert(h)) { MC_COUNT("executions_skipped_identical_input"); return; }
+	}
 	if (!c->dns) {
 		c->env_live = mcx_alloc_live();
 		if (cx_base_new(c, cfg)) { mc_fail("harness:setup", "%s: cannot build the resolver: %s", g_ctx, strerror(errno)); cx_base_free(c); return; }
@@ -640,12 +677,14 @@ static void run_exec(const struct spec *s, int cfg, int mode, const struct dp_bu
 	if (mode != M_TCP && cx_pristine(c) && !mc_failed()) {
 		long leaked = mcx_alloc_live() - c->base_live;
 		if (!leaked) { MC_COUNT("resolver_reused"); return; }
-		report_leak(leaked, cfg, full_msg, len, &c->q, delivered, "with the request finished and the resolver idle");
+		report_leak(leaked, cfg, s, "with the request finished and the resolver idle");
+		c->env_live += leaked;
 	}
-	struct qinfo qcopy = c->q;
+	(void)delivered;
 	cx_base_free(c);
 	long leaked = mcx_alloc_live() - c->env_live;
-	if (leaked) report_leak(leaked, cfg, full_msg, len, &qcopy, delivered, "after evdns_base_free");
+	if (leaked) report_leak(leaked, cfg, s, "after evdns_base_free");
+	if (dp_tr_on && dp_alloc_trace_live() > g_tr_env) { dp_alloc_trace_dump(g_ctx); g_tr_env = dp_alloc_trace_live(); }
 }
 
 /* ------------------------------------------------------------------ */
@@ -767,14 +806,16 @@ static void item_fn(uint64_t idx)
 	pq = &q;
 	build_message(s, &q, &w);
 	describe(s, it->cfg, it->mode, d, sizeof d);
-	long item_live0 = mcx_alloc_live();
+	long item_live0 = mcx_alloc_live(); g_item_leaks = 0;
 	if (env_open(it->mode) < 0) { mc_fail("harness:env", "%s: cannot create event_base/sockets: %s", d, strerror(errno)); env_close(); return; }
 	vclock_reset(); memset(&g_cx, 0, sizeof g_cx); g_cx.csock = -1;
+	g_tr_env = 1 << 30;
 	{	/* warm-up execution (not judged): sizes the event_base's lazily allocated tables */
 		static struct dp_buf v; struct spec canon; memset(&canon, 0, sizeof canon); canon.qt = s->qt; canon.a = 1;
 		if (cx_base_new(&g_cx, it->cfg) == 0 && cx_request(&g_cx, s->qt, it->cfg, it->mode) == 0) { build_message(&canon, &g_cx.q, &v); cx_deliver(&g_cx, it->mode, v.b, v.n, 0, 0); }
 		cx_base_free(&g_cx);
 	}
+	g_tr_env = dp_alloc_trace_live();
 	if (it->plan == 0) { snprintf(g_ctx, sizeof g_ctx, "%s len=%zu", d, w.n); run_exec(s, it->cfg, it->mode, &w, w.n, 0, 0, pq); }
 	else if (it->plan == 1) {
 		for (size_t L = 0; L <= w.n; L++) { snprintf(g_ctx, sizeof g_ctx, "%s prefix=%zu/%zu", d, L, w.n); run_exec(s, it->cfg, it->mode, &w, L, 0, 0, pq); }
@@ -793,13 +834,13 @@ static void item_fn(uint64_t idx)
 	for (int i = 0; i < g_log.n && i < 2; i++) mc_observe(" [result=%d type=%d count=%d ttl=%d %s]", g_log.r[i].result, g_log.r[i].type, g_log.r[i].count, g_log.r[i].ttl, g_log.r[i].name);
 	cx_base_free(&g_cx);
 	env_close();
-	if (mcx_alloc_live() != item_live0) mc_fail("C33/leak/item", "%s: %ld allocation(s) live after the item's event_base was freed", d, mcx_alloc_live() - item_live0);
+	if (mcx_alloc_live() != item_live0 + g_item_leaks) mc_fail("C33/leak/item", "%s: %ld allocation(s) live after the item's event_base was freed (beyond those already reported)", d, mcx_alloc_live() - item_live0 - g_item_leaks);
 	if (mcx_fd_signature() != fd0) mc_fail("C33/fdleak", "%s: fd table differs after the item", d);
 }
 
 static void init(void)
 {
-	mcx_alloc_install();
+	if (!dp_alloc_trace_install()) mcx_alloc_install();
 	event_set_log_callback(dp_quiet_log);
 	/* warm-up: full cycles so that one-time library allocations are not counted as leaks */
 	static struct dp_buf v; struct spec canon; memset(&canon, 0, sizeof canon); canon.a = 1;
@@ -814,6 +855,9 @@ int main(int argc, char **argv)
 {
 	(void)predicted_plain;
 	generate(dp_argv_param(argc, argv, "tier", "quick"));
+	g_done_cap = (size_t)1 << 25;
+	g_done = mmap(NULL, g_done_cap * sizeof *g_done, PROT_READ | PROT_WRITE, MAP_SHARED | MAP_ANONYMOUS | MAP_NORESERVE, -1, 0);
+	if (g_done == MAP_FAILED) g_done = NULL;
 	struct mc_config cfg = { .property = "C33", .n_items = n_items, .item = item_fn, .init = init };
 	return mc_main(argc, argv, &cfg);
 }
